@@ -10,6 +10,14 @@ def _f(mod, fn):
 
 
 PROPS = {
+    'C01': {
+        'lean': 'C01',
+        'corr': [_f('comp_upload', 'corr'), _f('comp_chunk', 'corr'), _f('comp_plan', 'corr')],
+        'oracles': [_f('comp_upload', 'oracle')],
+        'modelled': ['upload.UploadFilenameInputManager / UploadSeekableInputManager / UploadNonSeekableInputManager (slicing, _read)',
+                     'utils.ReadFileChunk', 'copies: CopySourceRange plan',
+                     'ordering of create/parts/complete across threads: checked end to end, modelled in M2'],
+    },
     'C02': {
         'lean': 'C02',
         'corr': [_f('comp_download', 'corr'), _f('comp_defer', 'corr')],
